@@ -53,7 +53,7 @@ MANIFEST = {
 
 
 def plan(tier: str) -> dict:
-    return {"shards": 8, "budget_s": 45} if tier == "quick" else {"shards": 16, "budget_s": 900}
+    return {"shards": 8, "budget_s": 55} if tier == "quick" else {"shards": 16, "budget_s": 900}
 
 
 # ------------------------------------------------------------------ independent table (oracle d)
@@ -169,26 +169,40 @@ def step(rule: str, size: int, enc: LookupEncoder, dec: LookupDecoder, ref: RefT
     data = enc.lookup.data
     if len(data) > size:
         raise Broken("live-entries", f"writer holds {len(data)} > {size}")
-    live = [v for v in dec.data if v is not None]
-    if len(dec.data) != size or len(live) > size:
-        raise Broken("live-entries", f"reader holds {len(live)} / deque len {len(dec.data)} for size {size}")
+    table = reader_table(dec, size)
+    live = [v for v in table if v is not None]
+    if len(live) > size:
+        raise Broken("live-entries", f"reader holds {len(live)} live strings for size {size}")
     for k, i in data.items():
-        if not 1 <= i <= size or dec.data[i - 1] != k:
-            raise Broken("mirror", f"writer {k!r}->{i} but reader slot holds {dec.data[i - 1] if 1 <= i <= size else None!r}")
+        if not 1 <= i <= size or table[i - 1] != k:
+            raise Broken("mirror", f"writer {k!r}->{i} but reader slot holds {table[i - 1] if 1 <= i <= size else None!r}")
     if len(live) != len(data):
         raise Broken("mirror", f"reader has {len(live)} live strings, writer {len(data)} keys")
-    return e, t
+    return e, t, table
 
 
-def canonical(rule, enc, dec, ref):
+def reader_table(dec, size: int) -> tuple:
+    """What every slot 1..size resolves to (None if unfilled), asked through the reader's own at() on a clone,
+    so that the harness does not depend on how the reader stores its entries."""
+    probe = clone(dec)
+    out = []
+    for i in range(1, size + 1):
+        try:
+            out.append(probe.at(i))
+        except Exception:  # noqa: BLE001 - unfilled / out of range
+            out.append(None)
+    return tuple(out)
+
+
+def canonical(rule, enc, dec, ref, table=None):
     order = list(enc.lookup.data.items())
     ren = {}
     for pos, (k, _i) in enumerate(order):
         ren[k] = "E" if (rule == "prefix" and k == "") else pos
     w = tuple((ren[k], i) for k, i in order)
-    r = tuple(None if v is None else ren.get(v, "stale") for v in dec.data)
+    r = tuple(None if v is None else ren.get(v, "stale") for v in (table if table is not None else reader_table(dec, ref.size)))
     rs = tuple((s, ren.get(v, "stale")) for s, v in sorted(ref.slots.items()))
-    return (w, enc.lookup._evicting, enc.last_assigned_index, enc.last_reused_index, r,
+    return (w, len(enc.lookup.data) >= ref.size, enc.last_assigned_index, enc.last_reused_index, r,
             dec.last_assigned_index, dec.last_reused_index, rs, ref.le, ref.lr)
 
 
@@ -218,7 +232,7 @@ def bfs(ctx, rule: str, size: int, max_states: int | None, deadline: float):
             transitions += 1
             h2 = hist + (key,) if len(hist) < 40 else hist
             try:
-                step(rule, size, e2, d2, r2, key)
+                _e, _t, table = step(rule, size, e2, d2, r2, key)
             except Broken as b:
                 ctx.violation({"clause": b.clause, "rule": rule, "size": size, "history": list(hist) + [key],
                                "summary": f"{rule} table size {size} after history {list(hist) + [key]}: {b}"})
@@ -228,17 +242,17 @@ def bfs(ctx, rule: str, size: int, max_states: int | None, deadline: float):
                 ctx.violation({"clause": "contract", "rule": rule, "size": size, "history": list(hist) + [key],
                                "summary": f"{rule} size {size}: {broken[0]}"})
                 continue
-            c = canonical(rule, e2, d2, r2)
+            c = canonical(rule, e2, d2, r2, table)
             if c not in seen:
                 seen.add(c)
                 frontier.append((e2, d2, r2, depth + 1, h2))
                 max_depth_new = max(max_depth_new, depth + 1)
-                if e2.lookup._evicting:
+                if len(e2.lookup.data) >= size:
                     full_states += 1
                     ctx.case(("bfs", rule, size, c), True,
                              sample={"kind": "bfs-state", "rule": rule, "size": size, "history": list(h2)[-12:],
                                      "writer_lru_order": [[k, i] for k, i in e2.lookup.data.items()],
-                                     "reader_slots": list(d2.data)})
+                                     "reader_slots": list(table)})
                 else:
                     ctx.case(("bfs", rule, size, c), False)
     ctx.observe("bfs-transitions", transitions)
@@ -298,7 +312,7 @@ def walk(ctx, rng, sizes: tuple[int, int, int], steps: int, deadline: float):
                         raise Broken("id-range", f"datatype entry id {e.id} not in [0,{d}]")
                     refs["datatype"].entry(e.id, e.value)
                     dec.decode_row(e)
-                    if len([x for x in dec.datatypes.data if x is not None]) == d:
+                    if len(enc.datatypes.lookup.data) >= d:
                         evictions += 1
                 if not 1 <= msg.datatype <= d:
                     raise Broken("id-range", f"datatype id {msg.datatype} not in [1,{d}]")
@@ -334,12 +348,13 @@ def walk(ctx, rng, sizes: tuple[int, int, int], steps: int, deadline: float):
             for tab, rd, size in ((enc.names, dec.names, n), (enc.prefixes, dec.prefixes, p)):
                 if len(tab.lookup.data) > size:
                     raise Broken("live-entries", f"writer holds {len(tab.lookup.data)} > {size}")
-                if tab.lookup._evicting:
+                if size and len(tab.lookup.data) >= size:
                     evictions += 1
-                if s % 64 == 0 or size <= 16:
+                if size and (s % 64 == 0 or (size <= 16 and s % 4 == 0)):
+                    table = reader_table(rd, size)
                     for k, i in tab.lookup.data.items():
-                        if rd.data[i - 1] != k:
-                            raise Broken("mirror", f"writer {k!r}->{i}, reader slot {rd.data[i - 1]!r}")
+                        if table[i - 1] != k:
+                            raise Broken("mirror", f"writer {k!r}->{i}, reader slot {table[i - 1]!r}")
         except Broken as b:
             _walk_violation(ctx, b, sizes, mode, hist)
             return
